@@ -1,6 +1,6 @@
 (* C06 — property theorems only.  Each is closed by [exact <lemma>] and followed by
    Print Assumptions; the statements are pinned here so they cannot be quietly weakened. *)
-From FB Require Import C06.Model C18.Theory C06.Theory1 C06.Theory2 C06.Theory3 C06.Theory4.
+From FB Require Import C06.Model C18.Theory C06.Theory1 C06.Theory2 C06.Theory3 C06.Theory4 C06.Theory5 C06.Theory6.
 
 (* ---- 1. descriptor rewriting preserves the shape and maps exactly the class names ---- *)
 
@@ -298,3 +298,203 @@ Print Assumptions C06_inherited_examples.
 Theorem C06_examples : nonvacuous.
 Proof. exact nonvacuous_holds. Qed.
 Print Assumptions C06_examples.
+
+(* ================================================================== *)
+(* round 4 *)
+
+(* ---- 6. the search on ARBITRARY providers (after "fix: cyclic inheritance information is an error
+   for the remapper instead of an endless recursion") ---- *)
+
+(* for EVERY provider, cyclic or not, more fuel than the default changes nothing: the model's Err is
+   never "out of fuel" — the real search terminates on every input (and, searching every class at
+   most once per query, quickly: C06_round4_examples evaluates a tower of 40 diamonds) *)
+Theorem C06_fuel_never_runs_out : forall sel R I c k f, (default_fuel I <= f)%nat ->
+  map_member_fail sel f R I c k = map_member_fail sel (default_fuel I) R I c k.
+Proof. exact fuel_never_runs_out. Qed.
+Print Assumptions C06_fuel_never_runs_out.
+
+(* the memo of finished owners ("fix: the remapper searches a class once per query instead of once per
+   path to it") never changes an answer: on EVERY provider, cyclic or not, the search of the code is the
+   path-only search map_member_fail_p (the code before that repair: Err when a class on the current
+   path is met again, otherwise the first declaring type in depth-first order) *)
+Theorem C06_memo_sound : forall sel R I c k f, (default_fuel I <= f)%nat ->
+  map_member_fail sel f R I c k = map_member_fail_p sel f R I [] c k.
+Proof. exact memo_sound. Qed.
+Print Assumptions C06_memo_sound.
+
+(* the invariant behind it, for any path and any set of finished owners: every finished owner is clean
+   (no cycle below it, nothing below it declares the key), and the two searches agree *)
+Theorem C06_memo_invariant : forall sel R I k fuel p fl c,
+  suff I fuel p c -> (forall z, In z p -> reachp I z c) -> (forall x, In x fl -> clean sel R I k x) ->
+  match map_member_fail_m sel fuel R I k p fl c with
+  | Found v => map_member_fail_p sel fuel R I p c k = Ok (Some v)
+  | Bail => map_member_fail_p sel fuel R I p c k = Err
+  | NotFound fl' => map_member_fail_p sel fuel R I p c k = Ok None /\ forall x, In x fl' -> clean sel R I k x
+  end.
+Proof. exact map_member_fail_m_equiv. Qed.
+Print Assumptions C06_memo_invariant.
+
+(* the work of one query: map_member_fail_t is the search of the code instrumented with the list of owners
+   whose member table it consults; erasing the list gives the model back, and the list never contains a
+   class twice — on any provider, whatever the number of paths — so a query costs at most one table
+   look-up per class name the provider mentions, plus one for the owner *)
+Theorem C06_tables_consulted_once : forall sel R I k fuel c,
+  fst (map_member_fail_t sel fuel R I k [] [] [] c) = map_member_fail_m sel fuel R I k [] [] c /\
+  NoDup (snd (map_member_fail_t sel fuel R I k [] [] [] c)).
+Proof. exact tables_consulted_once. Qed.
+Print Assumptions C06_tables_consulted_once.
+
+Theorem C06_work_bound : forall sel R I k fuel c,
+  (length (snd (map_member_fail_t sel fuel R I k [] [] [] c)) <=
+   S (length (flat_map (fun e => fst e :: snd e) I)))%nat.
+Proof. exact work_bound. Qed.
+Print Assumptions C06_work_bound.
+
+(* when the traversal from the owner is bounded (no cycle can be reached) the cycle check never fires:
+   the repaired search is the search without the check (the code before the repair) *)
+Theorem C06_cycle_check_silent : forall sel R I k fuel c, bounded fuel I c = true ->
+  map_member_fail sel fuel R I c k = search sel fuel R I c k.
+Proof. exact map_member_fail_bounded. Qed.
+Print Assumptions C06_cycle_check_silent.
+
+(* acyclicity needs no rank witness: it is decided by bounding the traversal from every key *)
+Theorem C06_acyclic_dec : forall I, acyclic_dec I = true <-> exists rank, acyclic_rank I rank.
+Proof. exact acyclic_dec_spec. Qed.
+Print Assumptions C06_acyclic_dec.
+
+(* the search answers Err only for cyclic inheritance information *)
+Theorem C06_err_only_cyclic : forall sel R I c k,
+  map_member_fail sel (default_fuel I) R I c k = Err -> acyclic_dec I = false.
+Proof. exact search_err_only_cyclic. Qed.
+Print Assumptions C06_err_only_cyclic.
+
+(* and a class that is its own (only) super type, asked for a key it does not declare, IS an Err *)
+Theorem C06_self_loop_err : forall sel R I c ss k,
+  supers I c = Some ss -> (forall s, In s ss -> s = c) -> ss <> [] -> declared sel R c k = None ->
+  map_member_fail sel (default_fuel I) R I c k = Err.
+Proof. exact self_loop_err. Qed.
+Print Assumptions C06_self_loop_err.
+
+(* the inherited round trip (C06_roundtrip_inherited) with decidable hypotheses only *)
+Theorem C06_roundtrip_inherited_dec : forall M X Y R I,
+  remapper_b M X Y = Ok R -> rt_world R I = true -> acyclic_dec I = true ->
+  exists R', remapper_b M Y X = Ok R' /\
+    (forall c k, rt_owner b_fields R I c = true -> field_query_ok R I c k = true ->
+       exists c' k', map_field_ref R I c k = Ok (c', k') /\
+                     map_field_ref R' (remap_inh (b_map_class R) I) c' k' = Ok (c, k)) /\
+    (forall c k, rt_owner b_methods R I c = true -> method_query_ok R I c k = true ->
+       exists c' k', map_method_ref_obj R I c k = Ok (c', k') /\
+                     map_method_ref_obj R' (remap_inh (b_map_class R) I) c' k' = Ok (c, k)).
+Proof. exact roundtrip_mappings_inherited_dec. Qed.
+Print Assumptions C06_roundtrip_inherited_dec.
+
+(* ---- 7. map_desc on ALL strings ---- *)
+
+(* whether the scanner succeeds depends on the string alone, never on the remapper *)
+Theorem C06_map_desc_ok_indep : forall f g s, map_desc f s = Err <-> map_desc g s = Err.
+Proof. exact map_desc_ok_indep. Qed.
+Print Assumptions C06_map_desc_ok_indep.
+
+(* rewriting the output of a rewrite is the rewrite with the composed class map, for every string the
+   first rewrite accepts, when the first class map keeps names non-empty and free of `;` *)
+Theorem C06_map_desc_compose : forall f g s o, keeps_names f -> map_desc f s = Ok o ->
+  map_desc g o = map_desc (fun n => g (f n)) s.
+Proof. exact map_desc_compose. Qed.
+Print Assumptions C06_map_desc_compose.
+
+Theorem C06_map_desc_compose_needs_names :
+  exists f g s o, map_desc f s = Ok o /\ map_desc g o <> map_desc (fun n => g (f n)) s.
+Proof. exact map_desc_compose_needs_names. Qed.
+Print Assumptions C06_map_desc_compose_needs_names.
+
+Theorem C06_map_desc_twice_return : forall f g d r, range_valid f -> parse_return d = Ok r ->
+  map_desc f d = Ok (print_return (map_ret f r)) /\
+  map_desc g (print_return (map_ret f r)) = Ok (print_return (map_ret (fun n => g (f n)) r)).
+Proof. exact map_desc_twice_return. Qed.
+Print Assumptions C06_map_desc_twice_return.
+
+(* ---- 8. the member tables are expressed through the first namespace ---- *)
+
+(* soundness of the tables (the converse of C06_from_not_first_field and _method): every class entry is a class row,
+   every member entry (kf, kt) is a member row of that class row, with the row's names in from / to and
+   the row's descriptor expressed 0 -> from in the key and 0 -> to in the value — whatever from and to are
+   (entry_of_row; a remapper_b that expressed the value through from -> to, or the key through
+   from -> 0, does not satisfy this) *)
+Theorem C06_tables_via_first : forall M from to R a cl,
+  remapper_b M from to = Ok R -> In (a, cl) R ->
+  exists c, In c (ms_classes M) /\ row_has from to a (b_name cl) c /\
+    (forall kf kt, In (kf, kt) (b_fields cl) ->
+       exists f, In f (c_fields c) /\
+         nth_name (f_names f) from = Some (fst kf) /\ nth_name (f_names f) to = Some (fst kt) /\
+         a_map_desc (remapper_a M 0 from) (f_desc f) = Ok (snd kf) /\
+         a_map_desc (remapper_a M 0 to) (f_desc f) = Ok (snd kt)) /\
+    (forall kf kt, In (kf, kt) (b_methods cl) ->
+       exists m, In m (c_methods c) /\
+         nth_name (m_names m) from = Some (fst kf) /\ nth_name (m_names m) to = Some (fst kt) /\
+         a_map_desc (remapper_a M 0 from) (m_desc m) = Ok (snd kf) /\
+         a_map_desc (remapper_a M 0 to) (m_desc m) = Ok (snd kt)).
+Proof. exact remapper_b_sound. Qed.
+Print Assumptions C06_tables_via_first.
+
+(* every answer of map_field_fail / map_method_fail is such a row of a type of the pre-order *)
+Theorem C06_field_answer_via_first : forall M from to R I rank c k v,
+  remapper_b M from to = Ok R -> acyclic_rank I rank ->
+  map_field_fail R I c k = Ok (Some v) ->
+  exists y row f, In y (preorder I c) /\ In row (ms_classes M) /\ nth_name (c_names row) from = Some y /\
+    In f (c_fields row) /\
+    nth_name (f_names f) from = Some (fst k) /\ nth_name (f_names f) to = Some (fst v) /\
+    a_map_desc (remapper_a M 0 from) (f_desc f) = Ok (snd k) /\
+    a_map_desc (remapper_a M 0 to) (f_desc f) = Ok (snd v).
+Proof. exact field_answer_via_first. Qed.
+Print Assumptions C06_field_answer_via_first.
+
+Theorem C06_method_answer_via_first : forall M from to R I rank c k v,
+  remapper_b M from to = Ok R -> acyclic_rank I rank ->
+  map_method_fail R I c k = Ok (Some v) ->
+  exists y row m, In y (preorder I c) /\ In row (ms_classes M) /\ nth_name (c_names row) from = Some y /\
+    In m (c_methods row) /\
+    nth_name (m_names m) from = Some (fst k) /\ nth_name (m_names m) to = Some (fst v) /\
+    a_map_desc (remapper_a M 0 from) (m_desc m) = Ok (snd k) /\
+    a_map_desc (remapper_a M 0 to) (m_desc m) = Ok (snd v).
+Proof. exact method_answer_via_first. Qed.
+Print Assumptions C06_method_answer_via_first.
+
+(* ---- 9. a found member's descriptor agrees with map_field_desc / map_method_desc ---- *)
+
+(* coherent_rows M from to (decidable): the `from` names are non-empty and free of `;`, every row
+   descriptor parses, and for every class name n it mentions, expressing n in `to` directly equals
+   expressing it in `from` and sending that through from -> to.  Then the descriptor of every found
+   member is the query's descriptor rewritten by the same remapper. *)
+Theorem C06_field_desc_coherent : forall M from to R I rank c k v,
+  remapper_b M from to = Ok R -> coherent_rows M from to = true -> acyclic_rank I rank ->
+  map_field_fail R I c k = Ok (Some v) -> b_map_desc R (snd k) = Ok (snd v).
+Proof. exact field_desc_coherent. Qed.
+Print Assumptions C06_field_desc_coherent.
+
+Theorem C06_method_desc_coherent : forall M from to R I rank c k v,
+  remapper_b M from to = Ok R -> coherent_rows M from to = true -> acyclic_rank I rank ->
+  map_method_fail R I c k = Ok (Some v) -> b_map_desc R (snd k) = Ok (snd v).
+Proof. exact method_desc_coherent. Qed.
+Print Assumptions C06_method_desc_coherent.
+
+(* a structural condition that gives coherence (the one the harness evaluates): every class row has a
+   name in the first namespace, in `from` and in `to`; first-namespace names and `from` names pairwise
+   distinct; every class name of a row descriptor is a first-namespace name or nobody's `from` name *)
+Theorem C06_complete_world_coherent : forall M from to,
+  complete_world M from to = true -> coherent_rows M from to = true.
+Proof. exact complete_world_coherent. Qed.
+Print Assumptions C06_complete_world_coherent.
+
+(* completeness cannot be dropped: a class row without a name in `to` lets its first-namespace name
+   show through in the descriptor of a found member (C.f : LA; with A -> A1 -> nothing, asked 1 -> 2:
+   found as (f2, LA;) while map_field_desc leaves LA1; alone) *)
+Theorem C06_partial_row_witness : partial_row_witness.
+Proof. exact partial_row_witness_holds. Qed.
+Print Assumptions C06_partial_row_witness.
+
+(* non-vacuity: a tower of 40 diamonds (2^40 paths) searched at once; class names that are a permutation
+   of one another across the namespaces, asked from the second namespace; cyclic providers (Err, found
+   before the cycle, fuel 100 = default fuel) *)
+Theorem C06_round4_examples : round4_examples.
+Proof. exact round4_examples_hold. Qed.
+Print Assumptions C06_round4_examples.
